@@ -81,6 +81,7 @@ func (g *gen) call(x *ssa.Call, st State, reach string) string {
 			e := g.newEnv(st, g.entry)
 			if g.curBlock != nil {
 				e.atBlock, e.atEnd = g.curBlock, true
+				e.curParams = true
 			}
 			for _, a := range x.Call.Args {
 				e.callArgs = append(e.callArgs, g.redirect(g.val(a)))
@@ -156,6 +157,7 @@ func (g *gen) applyGhostSets(entry bool, callee string, nth int, results []Val, 
 		if !entry && g.curBlock != nil {
 			// source locals already assigned at this point may be named
 			e.atBlock, e.atEnd = g.curBlock, true
+			e.curParams = true
 		}
 		v, err := g.elab1(gs.E, e)
 		if err != nil {
